@@ -249,7 +249,7 @@ def get_pad_ops_alignment(op: Pad, preprocessor_data: PreprocessorData) -> int:
     if ops_alignment <= 0:
         macro_resolve_error(
             preprocessor_data.curr_tree,
-            f"'pad' must get a positive ops-alignment, but got {ops_alignment}. In {op.code_position}.",
+            f"'pad' must get a positive ops-alignment, but got {hex(ops_alignment)}. In {op.code_position}.",
         )
     return ops_alignment
 
@@ -282,7 +282,7 @@ def get_reserved_bits_size(op: Reserve, preprocessor_data: PreprocessorData) -> 
         if reserved_bits_size < 0:
             macro_resolve_error(
                 preprocessor_data.curr_tree,
-                f"'reserve' must get a non-negative number of bits, but got {reserved_bits_size}. In {op.code_position}.",
+                f"'reserve' must get a non-negative number of bits, but got {hex(reserved_bits_size)}. In {op.code_position}.",
             )
         return reserved_bits_size
     except FlipJumpExprException as e:
